@@ -105,6 +105,16 @@ def _close(t, i):
     return -1
 
 
+def _nested(depth):
+    p = r"\([^(){}\n]*\)"
+    for _ in range(depth):
+        p = r"\((?:[^(){}\n]|" + p + r")*\)"
+    return p
+
+
+_NESTED = _nested(4)
+
+
 def canon(s):
     """spellings that mean the same are brought to one form, so that extractors written for the form rustfmt + the authors
     use today do not react to a harmless rewrite:  `Err(e)?;` as a statement -> `return Err(e);`,  `x.len() == 0` ->
@@ -147,7 +157,7 @@ def canon(s):
     changed = True
     while changed:
         changed = False
-        for m in re.finditer(r"\bif !(\((?:[^(){}\n]|\([^(){}\n]*\))*\)|[A-Za-z_][\w.]*(?:\([^(){}\n]*\))?(?:\.[a-z_]+\([^(){}\n]*\))*) (?=\{)", t):
+        for m in re.finditer(r"\bif !(" + _NESTED + r"|[A-Za-z_][\w.]*(?:\([^(){}\n]*\))?(?:\.[a-z_]+\([^(){}\n]*\))*) (?=\{)", t):
             if re.search(r"else\s*$", t[:m.start()]):
                 continue
             b1 = m.end()
